@@ -2384,6 +2384,8 @@ def check_C17(ctx):
         X, Y = Session(c), Session(c)
         declared = set(n for n, _ in c.species)
         undeclared = set(n.path for n in c.named_tree().leaves() if n.name not in declared)
+        if undeclared:
+            ctx.dist['with_species_without_genes'] += 1
         before = X.core()
         empty_before = X.empty_genomes()
         ops = gen_ops(ctx, X, ctx.scale(40, 150))
